@@ -107,6 +107,17 @@ CHECKS = {
             'ranges included) is evaluated on both classes and compared. Cyclic workbooks (10 back-edge kinds x lengths 1-5 x '
             'entry inside/outside/whole file) must end in E2PyclParserException. Held on the graphs observed.',
             'Trusted: whole-file translation as the value reference; vf/xlref reference reader for the closure.'),
+    'C02': ('runtime monitoring: boundary oracle by construction (unique value per coordinate) + L1 trace of the cells an '
+            'evaluation touched + unknown-title workloads',
+            'Workbooks whose every cell holds a number that encodes its (sheet, row, column) are generated; references are '
+            'spelled from chosen coordinates ($ markers on each corner, bare/unquoted/quoted titles incl. Cyrillic, digits, '
+            'blanks, braces, prefixes of each other; cell, vertical, horizontal, rectangle, A:A, A:C; far columns up to XFD '
+            'and rows up to 99999 through entry-point slices) and observed as bare reference, SUM/COUNT/MAX/MIN/COUNTBLANK, '
+            'INDEX(i,j), in 20 function/operator positions (vf/xlref-judged), under workbook values and overrides; the set of '
+            'cell uids touched while evaluating SUM(area) must equal the area. References to non-existent titles must be '
+            'rejected. Held on the references observed.',
+            'Trusted: the generator\'s arithmetic on its own coordinates; vf/xlref for the function-position formulas. '
+            'Reversed corners and titles containing quote/exclamation mark are not generated.'),
     'C18': ('runtime monitoring: hooked state assertion on Excel.parse (grid, titles, sizes) + boundary observation of every '
             'planted constant vs the generator\'s cell map cross-read by openpyxl\'s regular loader',
             'Generated sparse workbooks (1-12 worksheets in random order, chart sheets between them, empty sheets, blocks away '
